@@ -4,12 +4,13 @@ alpha-normalised body hash) whose decomposition the rules were confirmed against
 re-confirmed against a new pinned tree."""
 import ast, json, os, sys
 sys.path.insert(0, "/verif")
-from sa.normalise import body_hash, local_names
+from sa.normalise import body_hash, local_names, has_ref_alias
 root = os.path.join(sys.argv[1] if len(sys.argv) > 1 else "/repo", "src", "bumpver")
 out = {}
 out_sigs = {}
 out_names = {}
 out_consts = {}
+out_alias = {}
 out_callers = {}
 for fn in sorted(os.listdir(root)):
     if not fn.endswith(".py"):
@@ -18,12 +19,15 @@ for fn in sorted(os.listdir(root)):
     names = {}
     sigs = {}
     lnames = {}
+    aliases = []
     def scan(stmts, prefix=""):
         for st in stmts:
             if isinstance(st, (ast.FunctionDef, ast.AsyncFunctionDef)):
                 names[prefix + st.name] = body_hash(st)
                 sigs[prefix + st.name] = [x.arg for x in st.args.posonlyargs + st.args.args + st.args.kwonlyargs]
                 lnames[prefix + st.name] = local_names(st)
+                if has_ref_alias(st):
+                    aliases.append(prefix + st.name)
             elif isinstance(st, ast.ClassDef):
                 names[st.name] = ""
                 scan(st.body, st.name + ".")
@@ -53,9 +57,11 @@ for fn in sorted(os.listdir(root)):
     out_callers[fn[:-3]] = {k: sorted(v) for k, v in callers.items()}
     out_sigs[fn[:-3]] = sigs
     out_names[fn[:-3]] = lnames
+    out_alias[fn[:-3]] = sorted(aliases)
 json.dump(out, open("/verif/sa/baseline_functions.json", "w"), indent=1, sort_keys=True)
 json.dump(out_sigs, open("/verif/sa/baseline_signatures.json", "w"), indent=1, sort_keys=True)
 json.dump(out_names, open("/verif/sa/baseline_names.json", "w"), indent=1, sort_keys=True)
 json.dump(out_callers, open("/verif/sa/baseline_callers.json", "w"), indent=1, sort_keys=True)
 json.dump(out_consts, open("/verif/sa/baseline_consts.json", "w"), indent=1, sort_keys=True)
+json.dump(out_alias, open("/verif/sa/baseline_ref_alias.json", "w"), indent=1, sort_keys=True)
 print({k: len(v) for k, v in out.items()})
